@@ -47,6 +47,7 @@ class Ctx:
         self.notes = []
         self.engine = None
         self.samples = []
+        self.checker_errors = []
 
     def new_engine(self):
         from .engine import Engine
@@ -55,7 +56,17 @@ class Ctx:
         return e
 
     def verify(self, engine, qualname, replay=None):
-        vcs = engine.verify_function(qualname, self.prop)
+        from .state import Unsupported
+        n0 = len(engine.vcs)
+        try:
+            vcs = engine.verify_function(qualname, self.prop)
+        except Unsupported as e:
+            # the contract no longer applies to the code as it is now (renamed local, unsupported construct ...): a
+            # checker error for this function; the other obligations and the bounded checks still run
+            del engine.vcs[n0:]
+            engine.current = None
+            self.checker_errors.append(f"{qualname}: {e}")
+            return []
         self.vcs += vcs
         self.functions = engine.functions_verified
         if replay is not None:
@@ -187,7 +198,7 @@ def main(argv=None):
 
 def conclude(ctx, mod, t0, evidence_path, args):
     prop = ctx.prop
-    known = [k for k in load_known() if k.get("property") == prop and k.get("status", "open") == "open"]
+    known = [k for k in load_known() if prop in k.get("properties", [k.get("property")]) and k.get("status", "open") == "open"]
     valid = [v for v in ctx.vcs if v.kind == "valid"]
     covers = [v for v in ctx.vcs if v.kind == "cover"]
     discharged = [v for v in valid if v.result["verdict"] == "unsat"]
@@ -288,6 +299,10 @@ def conclude(ctx, mod, t0, evidence_path, args):
         status = max(status, 3) if status != 1 else 1
         for v in vacuous:
             lines.append(f"CHECKER-ERROR property={prop} vacuous precondition/cover: {v.name}")
+    for ce in ctx.checker_errors:
+        lines.append(f"CHECKER-ERROR property={prop} contract not applicable: {ce}"[:400])
+    if ctx.checker_errors and status == 0:
+        status = 3
     if not valid and not ctx.bounded:
         status = 3
         lines.append(f"CHECKER-ERROR property={prop} zero obligations generated")
